@@ -461,6 +461,10 @@ def shard(ctx: Ctx) -> None:
             ("undecodable-error-text", replace_frame(1, b"\x01\xff\xfe\xfd", None, strict=False), {}),
             ("name-mismatch", identity_expect("BadNameAPIError", 0, received_name="dev", exact=True), {"expected": "other"}),
             ("name-mismatch-case", identity_expect("BadNameAPIError", 0, received_name="dev", exact=True), {"expected": "Dev"}),
+            # (the announced name merely EXTENDS the expected one - a sibling "kitchen-2", a MAC suffix - or the other way round: not equal)
+            ("name-mismatch-expected-is-prefix", identity_expect("BadNameAPIError", 0, received_name="dev", exact=True), {"expected": "de"}),
+            ("name-mismatch-expected-is-first-letter", identity_expect("BadNameAPIError", 0, received_name="dev", exact=True), {"expected": "d"}),
+            ("name-mismatch-expected-extends", identity_expect("BadNameAPIError", 0, received_name="dev", exact=True), {"expected": "dev-a1b2c3"}),
             # the hello of current firmware: further NUL-terminated fields (MAC address) behind the name
             ("name-mismatch-hello-with-mac-field", replace_frame(0, b"\x01" + name + b"\x00aabbccddeeff\x00", "BadNameAPIError", exact=True, received_name="dev"), {"expected": "other"}),
             ("name-mismatch-hello-with-two-fields", replace_frame(0, b"\x01" + name + b"\x00aabbccddeeff\x00esp32\x00", "BadNameAPIError", exact=True, received_name="dev"), {"expected": "dev2"}),
